@@ -364,7 +364,7 @@ def run(ck, tier, rng):
     finally:
         shutil.rmtree(tmp, ignore_errors=True)
     return ck.finish(
-        rule="%d corpus decks; every single irregularity at every applicable location (dangling target per internal relationship, first internal Target emptied per rels item, deleted rels item per source, case-flipped Default/Override per entry, unknown content type per Override, 3 kinds of extra members, slide parts renamed with gaps / reversed, removed core properties, wrong main content type x3, each mandatory member deleted), 5 truncations and 4 non-zip byte strings as stream and as path, missing path, stream / path / directory forms%s; non-trivial = anything but the unmodified deck as zip" % (
+        rule="%d corpus decks; every single irregularity at every applicable location (dangling target per internal relationship, first internal Target emptied per rels item, deleted rels item per source, case-flipped Default/Override per entry, unknown content type per Override, 4 kinds of extra members (one of them explicit directory entries), slide parts renamed with gaps / reversed, removed core properties, wrong main content type x3, each mandatory member deleted), 5 truncations and 4 non-zip byte strings as stream and as path, missing path, stream / path / directory forms%s; non-trivial = anything but the unmodified deck as zip" % (
             len(decks), "; 120 sampled pairs per deck" if tier == "thorough" else ""),
         trusted_base=TB, assumptions=ASSUME,
         extra={"correspondence_diffs": diffs, "exhaustive": False, "unmodelled": meta.get("unmodelled", []),
